@@ -1,3 +1,4 @@
+import XdsVerif.Proofs.Flow
 import XdsVerif.Proofs.Conc
 import XdsVerif.Proofs.Sys
 import XdsVerif.Properties.C05
@@ -318,5 +319,50 @@ theorem no_stuck_lookup (tn : Nat → Name) (ls : List Lbl) (s : S) (h : runL V 
 /-! non-vacuity -/
 example : acyclic [("a", "b"), ("b", "a")] = false := by decide
 example : acyclic [("m.mu", "c.mu"), ("c.mu", "r.mu")] = true := by decide
+
+/-! ## Deadlock freedom of the request path (`Model/Flow.lean`), and S12
+
+The lock-order argument above covers mutexes. The request channel is a fourth resource: a producer waits for room in it
+**while holding `c.mu`**, and the only goroutine that makes room, the sender, takes `c.mu` when it adopts a new stream. -/
+
+theorem facts_flow : Generated.flow = Flow.expectedFacts := by decide
+
+/-- **full statement** (`no_deadlock`): in no reachable state is the client stuck with work under way. It is **false**
+of the source as it is: `s12_deadlock_reachable`. **Proved part**: the S12 shape is the *only* way to be stuck — in every
+reachable state in which the transport is not stalled, if no step of the program is enabled then the client is quiescent
+or in the S12 shape (any number of producers, any capacity; here the capacity the source has) -/
+theorem no_deadlock_partial {α : Type} (ls : List (Flow.Lbl α)) (s : Flow.S α)
+    (h : Flow.run Generated.seq.reqCap Flow.init ls = some s) (hns : s.stalled = false)
+    (hst : Flow.Stuck Generated.seq.reqCap s) : Flow.Quiescent s ∨ Flow.S12 Generated.seq.reqCap s :=
+  Flow.stuck_cases (by decide) (Flow.reachable h).inv hns hst
+
+/-- with fewer requests pending than the channel holds there is no deadlock at all -/
+theorem no_deadlock_below_capacity {α : Type} (ls : List (Flow.Lbl α)) (s : Flow.S α)
+    (h : Flow.run Generated.seq.reqCap Flow.init ls = some s) (hns : s.stalled = false)
+    (hst : Flow.Stuck Generated.seq.reqCap s) (hroom : s.queue.length < Generated.seq.reqCap) : Flow.Quiescent s := by
+  rcases no_deadlock_partial ls s h hns hst with hq | h12
+  · exact hq
+  · have := h12.2.1; omega
+
+/-- **S12 (known finding)**: the S12 shape is reachable — a stream failure, a published but not yet adopted stream,
+`reqCap` lookups that miss, one more that waits for room holding `c.mu`, and the sender's `select` taking the stream -/
+theorem s12_deadlock_reachable :
+    ∃ s : Flow.S Unit, Flow.run Generated.seq.reqCap Flow.init (Flow.s12Schedule Generated.seq.reqCap ()) = some s ∧
+      Flow.S12 Generated.seq.reqCap s :=
+  Flow.s12_reachable Generated.seq.reqCap ()
+
+/-- … and it is for ever: nothing the program or its environment does (short of `close()` after an authentication
+failure) leads out of it; the only step of the program still enabled is the receiver's pending hand-off -/
+theorem s12_is_forever {α : Type} (s s' : Flow.S α) (l : Flow.Lbl α) (h12 : Flow.S12 Generated.seq.reqCap s)
+    (hl : l ≠ .rAuthFail) (h : Flow.step Generated.seq.reqCap s l = some s') : Flow.S12 Generated.seq.reqCap s' :=
+  Flow.s12_absorbing h12 hl h
+
+theorem s12_only_handoff_runs {α : Type} (s : Flow.S α) (l : Flow.Lbl α) (h12 : Flow.S12 Generated.seq.reqCap s)
+    (hi : l.internal = true) (hne : Flow.step Generated.seq.reqCap s l ≠ none) : l = .rPublish :=
+  Flow.s12_only_publish h12 hi hne
+
+/-! non-vacuity at capacity 2: the schedule of `s12_deadlock_reachable`, then nothing but the hand-off -/
+example : (Flow.run 2 (Flow.init : Flow.S Unit) (Flow.s12Schedule 2 ())).map
+    (fun s => (s.spc, s.cmu, s.queue.length, s.pc 2)) = some (.adoptWait 2, some (.prod 2), 2, .locked ()) := by decide
 
 end XdsVerif.Properties.C07
